@@ -133,6 +133,7 @@ def run(chk):
         except ir.PathLimit:
             chk.broke("path limit in %s" % F.name)
             continue
+        paths = [p for p in paths if not p.contradictory(F)]
         if any(len(set(p.blocks)) != len(p.blocks) for p in paths):
             chk.broke("%s contains a loop; the wrapper rules assume loop-free wrappers" % F.name)
             continue
@@ -148,9 +149,12 @@ def run(chk):
                 state = "unchecked"     # unchecked | nonnull | null-pending | null-admitted
                 for pos, I in enumerate(P.insts):
                     # facts are attached to branch positions
-                    for (val, pred, c, _t, br, fpos) in P.facts:
+                    for (val, pred, c, _t, br, fpos), fk in zip(P.facts, P.fact_k):
                         if fpos != pos:
                             continue
+                        rv_ = P.at(F, val, fk)
+                        if isinstance(rv_, int) or (isinstance(rv_, dict) and rv_.get("k") == "c"):
+                            continue        # decided by the edges already taken (e.g. the verdict of an inlined helper): not a new decision
                         r = F.resolve(val)
                         is_p = isinstance(r, dict) and r.get("k") == "a" and r["n"] == n
                         if is_p and c == 0 and pred in ("ne", "eq"):
